@@ -33,3 +33,10 @@ JOBS.append(dict(COMMON, name="ct.prng", files=["harness/h_ct.c", "stubs/ct_hook
                  functions=["tinyjambu_prng_generate", "tinyjambu_prng_reseed"], allow_no_body=["tinyjambu_trng_generate"],
                  grid=[{"label": "sz%d_c%d_l%d" % (sz, c, l), "defs": ["WHAT=6", "ML=%d" % sz, "AD=%d" % c, "KL=%d" % l]} for (sz, c, l) in ((32, 1, 32), (70, 200, 1000), (33, 33, 32), (64, 255, 300))], cost=30,
                  bounded="generate sizes {32,33,64,70} with (counter, limit) in {(1,32),(200,1000),(33,32),(255,300)}; V, C and entropy bytes secret; hash API = branch-free contract stubs"))
+L2CT = ["harness/h_ct.c", "stubs/ct_hook.c", "stubs/hash_free.c", "stubs/clean_noop.c", "repo:src/tinyjambu-hmac.c"]
+JOBS.append(dict(COMMON, name="ct.hkdf", files=L2CT + ["repo:src/tinyjambu-hkdf.c"], functions=["tinyjambu_hkdf_extract", "tinyjambu_hkdf_expand"],
+                 grid=[{"label": "k%d_s%d_o%d" % (k, a, m), "defs": ["WHAT=7", "KL=%d" % k, "AD=%d" % a, "ML=%d" % m]} for (k, a, m) in ((13, 0, 42), (22, 13, 33))], cost=30,
+                 bounded="(keylen, saltlen, outlen) in {(13,0,42),(22,13,33)}; key material, salt and info bytes secret; hash API = branch-free contract stubs"))
+JOBS.append(dict(COMMON, name="ct.pbkdf2", files=L2CT + ["repo:src/tinyjambu-pbkdf2.c"], functions=["tinyjambu_pbkdf2"],
+                 grid=[{"label": "p%d_s%d_o%d" % (k, a, m), "defs": ["WHAT=8", "KL=%d" % k, "AD=%d" % a, "ML=%d" % m]} for (k, a, m) in ((8, 4, 32), (20, 8, 40))], cost=30,
+                 bounded="(passwordlen, saltlen, outlen) in {(8,4,32),(20,8,40)}, count 2; password and salt bytes secret; hash API = branch-free contract stubs"))
